@@ -9,12 +9,13 @@ namespace MsiModel
 /-- `std::io::ErrorKind`s the library produces (others are lumped into `other`). -/
 inductive ErrKind
   | notFound | alreadyExists | invalidInput | invalidData | unexpectedEof | other
+  | unmodelled   -- not an io::ErrorKind: the model does not cover this input (driver prints it)
   deriving DecidableEq, Repr, Inhabited
 
 def ErrKind.toString : ErrKind → String
   | .notFound => "NotFound" | .alreadyExists => "AlreadyExists"
   | .invalidInput => "InvalidInput" | .invalidData => "InvalidData"
-  | .unexpectedEof => "UnexpectedEof" | .other => "Other"
+  | .unexpectedEof => "UnexpectedEof" | .other => "Other" | .unmodelled => "UNMODELLED"
 
 inductive Res (α : Type) where
   | ok (a : α)
